@@ -1429,11 +1429,15 @@ def replay(run: Run, path: str):
     G.build()
     if "template" in inp:
         G.log_vars = {nd["parents"][0] for nd in G.nodes if nd["kind"] == "linked" and nd["fun"][0] == "log2"}
+        G.mixed = any("pdtype" in st for st in inp["template"]["steps"])       # a mixed-dtype template (every proposal has its own dtype)
         sr = StepRun(run, G, inp["template"], inp["mask"]).go()
         for op, out, ok in sr.s.records:
             print(f"  {op}  ->  {out}")
         for f in sr.failures:
             print(f"TRACE LEFT after step {f['step']}: node {f['node']}: read {f['observed']} but the reference state gives {f['expected']}  [{f['sig']}]")
+        if G.mixed:
+            st0 = sr.s.states[0]
+            print("  dtypes held by the state at the end:", {n: dt_name(st0._values[n].dtype) for n in G.settable() if st0._values[n] is not None})
         if G.weighted:
             r = rw = run.vm_bad_indices("replay", WHEADER, WCASE_TYPE, [sr.s.coq_case()], "(check_wcase_with wsem_where false)")
             print("implementation agrees with the model (weighted values: `_select` = row-wise selection of value AND weight):", r == [])
